@@ -1,0 +1,15 @@
+//go:build verif
+
+// Package c01 is the bridge used by the C01 verification harness to reach
+// internal packages. Compiled only with -tags verif.
+package c01
+
+import (
+	"github.com/lni/dragonboat/v4/config"
+	"github.com/lni/dragonboat/v4/internal/vfs"
+)
+
+// NewMemFS returns a fresh in-memory file system for a NodeHost.
+func NewMemFS() config.IFS {
+	return vfs.NewMemFS()
+}
